@@ -8,7 +8,7 @@ def sh(cmd, cwd=None):
     return p.returncode, p.stdout.decode("utf8", "replace")
 rows = []
 for sid in sorted(os.listdir(os.path.join(ROOT, "seeded"))):
-    if only and sid not in only:
+    if (only and sid not in only) or sid.startswith("neutral-"):
         continue
     d = os.path.join(ROOT, "seeded", sid)
     mp = os.path.join(d, "meta.json")
